@@ -401,3 +401,23 @@ def generate(repo):
 if __name__ == '__main__':
     import sys
     sys.stdout.write(generate(sys.argv[1] if len(sys.argv) > 1 else '/repo'))
+
+
+METHODS = ['_shift_settings_idx', 'ljust', 'rjust', 'center', 'assign_str',
+           dict(py='insert_settings', point=True, types={'apply': 'bool', 'settings': 'slist', 'topmost': 'bool'}),
+           dict(py='apply_formatting', lean='applyCore', after='_scrub_ansi_settings', join=True,
+                entry=[('ansi_settings', 'slist'), ('start', 'int'), ('end', 'int'), ('topmost', 'bool')])]
+
+
+def generate_methods(repo):
+    """Generated/Methods.lean: object-mutating methods translated statement by statement (pyobj.py)"""
+    import pyobj
+    path = os.path.join(repo, 'src', 'ansi_string', 'ansi_string.py')
+    tree = ast.parse(open(path).read())
+    fns = {f.name: f for f in class_methods(tree, 'AnsiString')}
+    pfns = {f.name: f for f in class_methods(tree, '_AnsiSettingPoint')}
+    L = ['/-  GENERATED by harness/translate.py (harness/pyobj.py) from the working tree of the repository — do not edit.',
+         '    Methods of `class AnsiString` that read and write `_s` / `_fmts`, translated statement by statement. -/',
+         'import AnsiModel.Obj', 'import AnsiModel.Replay', 'import AnsiModel.Generated.Wrappers', '', 'namespace Gen', '',
+         pyobj.translate(fns, METHODS, pfns), 'end Gen', '']
+    return '\n'.join(L)
